@@ -1,8 +1,9 @@
 SPECIFICATION Spec
-CONSTANTS MaxBr = 4 MaxN = 5
+CONSTANTS MaxBr = 4 MaxN = 5 MaxRuns = 2
   Kinds <- KindsSmall
   BufSizes <- BufQuick
 INVARIANT OpEqDen
+INVARIANT AllActiveAtStart
 INVARIANT OutIsPrefix
 INVARIANT BufBound
 INVARIANT BufsizeIndependent
